@@ -64,7 +64,36 @@ def detect(pid, d):
             "with_failing_input": bool(vio) and "no-failing-input-found" not in vio[0],
             "replay_excerpt": json.dumps(rep)[:1200] if rep else None}
 
+def recheck(want):
+    """Re-validate and re-run every kept seeded change against the CURRENT /repo HEAD; a change that no longer
+    applies or no longer breaks the property (because a later fix: commit touched the same code) keeps its earlier
+    verdict and gets status = stale with the reason."""
+    head = subprocess.run("git -C /repo rev-parse --short HEAD", shell=True, capture_output=True, text=True).stdout.strip()
+    for name in sorted(os.listdir(KEEP)):
+        d = f"{KEEP}/{name}"
+        if not os.path.exists(d + "/meta.json"): continue
+        pid = name.split("-")[0]
+        if want and pid not in want: continue
+        meta = json.load(open(d + "/meta.json"))
+        v = validate(pid, name.split("-m")[1], d)
+        if not v["ok"]:
+            meta["status"] = "stale"
+            meta["stale_reason"] = {"repo_head": head, "validation": {k: v[k] for k in v if not k.endswith("_tail")},
+                                    "note": "the change no longer applies to, or no longer breaks the property on, the current HEAD (later fix: commits changed the same code); the verdict recorded below was obtained at meta.repo_head"}
+            print(name, "STALE", json.dumps(meta["stale_reason"]["validation"]), flush=True)
+        else:
+            det = detect(pid, d)
+            meta["status"] = "current"
+            meta.pop("stale_reason", None)
+            meta["check_result"] = det
+            meta["repo_head"] = head
+            print(name, "detected" if det["detected"] else "MISSED", det["lines"][-1:], flush=True)
+        json.dump(meta, open(d + "/meta.json", "w"), indent=1)
+
+
 def main():
+    if len(sys.argv) > 1 and sys.argv[1] == "--recheck":
+        return recheck(sys.argv[2:])
     want = sys.argv[1:]
     for pid in sorted(os.listdir(OUT)):
         if not os.path.isdir(f"{OUT}/{pid}") or (want and pid not in want): continue
